@@ -761,6 +761,22 @@ def rule_opt(ctx):
         ctx.ob('C01.opt', f'{mod.name}:BinaryOpUGen.{name}:removal-only-on-rewrite', orphan is None,
                f'`{norm(orphan) if orphan is not None else ""}` is reached on a path that builds no replacement: the unit disappears while self '
                f'still reads it, and self and everything downstream are dropped by the topological sort', orphan or f.node, mod)
+    # a unit made by a rewrite has no place in the graph (_synth_index -1) until _replace_ugen gives it the place of the unit it
+    # replaces: optimising it before that lets a nested rewrite install *its* replacement at index -1, over the last unit of the graph
+    for name, fh in sorted(ci.methods.items()):
+        if not name.startswith('_optimize'):
+            continue
+        installs = {}
+        for c in U.calls(fh.node):
+            if norm(c.func) == 'self._synthdef._replace_ugen' and len(c.args) == 2 and isinstance(c.args[1], ast.Name):
+                installs.setdefault(c.args[1].id, []).append(c.lineno)
+        for c in U.calls(fh.node):
+            if U.method_name(c) == '_optimize_graph' and isinstance(c.func.value, ast.Name) and c.func.value.id not in ('self', 'input'):
+                v = c.func.value.id
+                placed = any(l < c.lineno for l in installs.get(v, []))
+                ctx.ob('C01.opt', f'{mod.name}:BinaryOpUGen.{name}:{norm(c)}:placed-first', placed,
+                       f'{norm(c)} runs before `self._synthdef._replace_ugen(self, {v})`: the new unit has no index yet, a rewrite of it '
+                       f'overwrites the last unit of the definition (an Out disappears)', c, mod)
     # _optimize_add installs what helpers return
     f = ci.methods['_optimize_add']
     src = full(f.node)
@@ -964,6 +980,8 @@ def run(ctx):
 
 
 MUTANTS = [
+    dict(rule='C01.opt', name='the replacement of a sum is optimised before it is placed (seed C01-g)', file='sc3/synth/ugen.py',
+         old="        if optimized_ugen:\n            self._synthdef._replace_ugen(self, optimized_ugen)", new="        if optimized_ugen:\n            optimized_ugen._optimize_graph()\n            self._synthdef._replace_ugen(self, optimized_ugen)"),
     dict(rule='C01.dce', name='dead code elimination visits a twice-read input twice (fix reverted)', file='sc3/synth/ugen.py',
          old="                if isinstance(input, UGen) and input._descendants\\\n                and not any(input is i for i in done):\n                    done.append(input)\n",
          new="                if isinstance(input, UGen) and input._descendants:\n"),
